@@ -127,8 +127,10 @@ type vcase struct {
 	Vocab    *vocabJ    `json:"vocab,omitempty"`
 }
 
-// beh lets a replay file of this driver pass through TestC20 (which decodes every replay file of the
-// property as one of its own cases) as the trivial case "no wrapper, inner handler returns 200".
+// A replay file is handed to every driver of the property. TestC20 decodes it as one of its own kinds of cases: the
+// members on / errors / beh / eff make it the trivial case "no wrapper, inner handler returns 200" there (no member
+// "path": two of its kinds disagree about that member's type). TestCx20LogSink takes it for a history: capunit = 8 and
+// no operations make that the empty history.
 type beh struct {
 	K string `json:"k"`
 	S int    `json:"s"`
@@ -137,16 +139,16 @@ type beh struct {
 type rcase struct {
 	Clause string `json:"clause"` // always starts with "replacervocab/"
 	vcase
-	Names  []string `json:"names"`
-	On     []string `json:"on"`
-	Errors string   `json:"errors"`
-	PathC  string   `json:"path"`
-	Beh    beh      `json:"beh"`
-	Eff    beh      `json:"eff"`
+	Names   []string `json:"names"`
+	On      []string `json:"on"`
+	Errors  string   `json:"errors"`
+	Beh     beh      `json:"beh"`
+	Eff     beh      `json:"eff"`
+	CapUnit int      `json:"capunit"`
 }
 
 func newRcase(clause string, c *vcase, names []string) rcase {
-	return rcase{Clause: "replacervocab/" + clause, vcase: *c, Names: names, On: []string{}, Errors: "none", PathC: "plain", Beh: beh{"ret", 200}, Eff: beh{"ret", 200}}
+	return rcase{Clause: "replacervocab/" + clause, vcase: *c, Names: names, On: []string{}, Errors: "none", Beh: beh{"ret", 200}, Eff: beh{"ret", 200}, CapUnit: 8}
 }
 
 // ---------------------------------------------------------------- VocabularyComplete (source cross-check)
